@@ -109,7 +109,7 @@ def solve_case(ctx, rng):
     act = sorted(rng.sample(range(n), rng.randint(1, n)))
     M = np.array([[rng.uniform(-1, 1) for _ in act] for _ in act])
     Ared = M @ M.T + len(act) * np.eye(len(act))
-    kind = rng.choice(['spd', 'spd', 'chain', 'saddle']) if len(act) >= 3 else 'spd'
+    kind = rng.choice(['spd', 'spd', 'chain', 'saddle', 'graded']) if len(act) >= 3 else 'spd'
     if kind == 'chain':
         # spring chain k*tridiag(-1, 2, -1): positive definite, interior columns sum EXACTLY to zero
         k_ = rng.choice([1., 2., 1000.])
@@ -120,9 +120,17 @@ def solve_case(ctx, rng):
         Kb = M[:nk, :nk] @ M[:nk, :nk].T + nk * np.eye(nk)
         G = np.array([[rng.choice([1., -1.]) * rng.uniform(0.5, 1.5) for _ in range(nk)]])
         Ared = np.block([[Kb, G.T], [G, np.zeros((1, 1))]])
+    dgr = np.ones(n)
+    if kind == 'graded':
+        # stiffness spanning many orders of magnitude (thin sheets next to penalty springs; small units): D K D with a graded
+        # diagonal D - every scaled amplitude is still an ACTIVE amplitude with its own equation
+        dg = np.array([10 ** rng.choice([0, 0, -3, -6, -9, -12, -15, -16]) for _ in act])
+        dg[0] = 1.
+        Ared = Ared * np.outer(dg, dg)
+        dgr[act] = dg
     A = np.zeros((n, n))
     A[np.ix_(act, act)] = Ared
-    b = np.array([rng.uniform(-1, 1) for _ in range(n)])
+    b = np.array([rng.uniform(-1, 1) for _ in range(n)]) * dgr
     seen = {}
     old = sp.spsolve
 
@@ -138,7 +146,15 @@ def solve_case(ctx, rng):
     line = 'C07 scatter %d | %s | %s' % (n, ' '.join(str(k) for k in act), ' '.join(q(v) for v in seen['px']))
     bad = None
     r = A @ x - b
-    if np.abs(r[act]).max() > 1e-9 * max(np.abs(b).max(), 1e-300):
+    if kind == 'graded':
+        # row-wise (componentwise) backward error: every active equation must hold relative to its own terms
+        den = np.abs(A) @ np.abs(x) + np.abs(b)
+        cw = np.abs(r[act]) / np.maximum(den[act], 1e-300)
+        if cw.max() > 1e-8:
+            bad = ('static solution does not satisfy K c = f on every active amplitude of a system whose stiffness spans %d orders '
+                   'of magnitude: row-wise backward error %.3e at amplitude %d' % (
+                       int(round(-2 * np.log10(dgr[act].min()))), cw.max(), act[int(cw.argmax())]))
+    elif np.abs(r[act]).max() > 1e-9 * max(np.abs(b).max(), 1e-300):
         bad = 'static solution does not satisfy K c = f on the active amplitudes (max residual %.3e)' % np.abs(r[act]).max()
     null = [k for k in range(n) if k not in act]
     if null and np.abs(x[null]).max() != 0:
@@ -179,6 +195,25 @@ def assembly_case(ctx, rng):
     if abs(float(fext @ c) - work) > 1e-9 * (np.abs(fext).sum() + 1e-300):
         return dict(panels=[(c_['m'], c_['n']) for c_ in cs], inc=inc), \
             'assembly fext.c = %.9e differs from the virtual work %.9e of the panels\' forces' % (float(fext @ c), work)
+    # a second load case on the SAME assembly object: forces edited in place / replaced, same number of forces, same load factor
+    for p in ps:
+        for fs in (p.forces, p.forces_inc):
+            for f in fs:
+                f[2], f[3], f[4] = rng.uniform(-1, 1), rng.uniform(-1, 1), rng.uniform(-1, 1)
+        if p.forces and rng.random() < 0.5:
+            p.forces = [list(f) for f in p.forces]
+    fext2 = pc.quiet(asm.calc_fext, inc=inc, silent=True)
+    work2 = 0.
+    for p in ps:
+        cl = np.ascontiguousarray(c[p.col_start:p.col_end])
+        for fs, fac in ((p.forces, 1.), (p.forces_inc, inc)):
+            for (x, y, fx, fy, fz) in fs:
+                u, v, w, _, _ = p.uvw(cl, xs=np.array([x]), ys=np.array([y]))
+                work2 += fac * (fx * float(np.ravel(u)[0]) + fy * float(np.ravel(v)[0]) + fz * float(np.ravel(w)[0]))
+    if abs(float(fext2 @ c) - work2) > 1e-9 * (np.abs(fext2).sum() + np.abs(fext).sum() + 1e-300):
+        return dict(panels=[(c_['m'], c_['n']) for c_ in cs], inc=inc, history='calc_fext; forces edited in place; calc_fext'), \
+            ('second load case on the same assembly: fext.c = %.9e differs from the virtual work %.9e of the edited forces '
+             '(first load case: %.9e)' % (float(fext2 @ c), work2, float(fext @ c)))
     return None, None
 
 
